@@ -12,6 +12,8 @@ before the rules run, so that equivalent spellings reach the rules as one.
   K7  `x in [c1, c2]` / `not in [..]` over constants  ->  tuple display
   K9  `L = []` directly followed by `for v in X: [if not C: continue]* [if C2:] L.append(E)`  ->  `L = [E for v in X if C and C2]`
       (v unused outside the loop, L not read by X / C / E)
+  K10 in a function that also returns the constants True / False: `return <comparison / and / or / not of comparisons>`
+      ->  `if <that>: return True` / `return False`   (the expression is bool-valued, so nothing changes)
   K8  `not (a or b)` / `not (a and b)` in an if/while test -> De Morgan form with `not` on the atoms; `not a not in b` etc. folded
 
 None of these changes what the code computes; line/column of the rewritten
@@ -222,6 +224,58 @@ def _append_loops(fn: ast.AST) -> None:
     fn.body = visit(fn.body)
 
 
+def _strictly_bool(e: ast.AST) -> bool:
+    if isinstance(e, ast.Compare):
+        return True
+    if isinstance(e, ast.UnaryOp) and isinstance(e.op, ast.Not):
+        return True
+    if isinstance(e, ast.BoolOp):
+        return all(_strictly_bool(v) for v in e.values)
+    if isinstance(e, ast.Constant):
+        return isinstance(e.value, bool)
+    return False
+
+
+def _bool_returns(fn: ast.AST) -> None:
+    """K10"""
+    rets = [n for n in _walk_fn(fn) if isinstance(n, ast.Return)]
+    if not any(isinstance(r.value, ast.Constant) and isinstance(r.value.value, bool) for r in rets):
+        return
+
+    def visit(body: List[ast.stmt]) -> List[ast.stmt]:
+        out: List[ast.stmt] = []
+        for s in body:
+            if isinstance(s, (ast.FunctionDef, ast.AsyncFunctionDef, ast.ClassDef)):
+                out.append(s)
+                continue
+            for fld in ("body", "orelse", "finalbody"):
+                sub = getattr(s, fld, None)
+                if isinstance(sub, list) and sub and isinstance(sub[0], ast.stmt):
+                    setattr(s, fld, visit(sub))
+            if isinstance(s, ast.Try):
+                for h in s.handlers:
+                    h.body = visit(h.body)
+            if isinstance(s, ast.Return) and s.value is not None and not isinstance(s.value, ast.Constant) and _strictly_bool(s.value):
+                t = ast.copy_location(ast.Return(value=ast.copy_location(ast.Constant(value=True), s)), s)
+                f = ast.copy_location(ast.Return(value=ast.copy_location(ast.Constant(value=False), s)), s)
+                out.append(ast.copy_location(ast.If(test=_demorgan(s.value), body=[t], orelse=[f]), s))
+                continue
+            out.append(s)
+        return out
+
+    fn.body = visit(fn.body)
+
+
+def _walk_fn(fn: ast.AST):
+    todo = list(ast.iter_child_nodes(fn))
+    while todo:
+        n = todo.pop()
+        yield n
+        if isinstance(n, (ast.FunctionDef, ast.AsyncFunctionDef, ast.ClassDef, ast.Lambda)):
+            continue
+        todo.extend(ast.iter_child_nodes(n))
+
+
 def _lambda_defs(fn: ast.AST) -> None:
     """K6 inside one function body (and nested blocks at the same function level)"""
     body = fn.body
@@ -271,4 +325,5 @@ def canonicalise(tree: ast.Module) -> None:
         if isinstance(n, (ast.FunctionDef, ast.AsyncFunctionDef)):
             _lambda_defs(n)
             _append_loops(n)
+            _bool_returns(n)
     ast.fix_missing_locations(tree)
